@@ -48,7 +48,7 @@ func init() {
 		factsOK := true
 		switch id {
 		case "C01":
-			mods = []string{"Verif.Properties.C01", "Verif.Properties.C01Move", "Verif.Properties.C01Skeleton", "Verif.Properties.C01RetargetExample", "Verif.Properties.C01Phases", "Verif.Properties.C01PhasesExample", "Verif.Properties.C01Import"}
+			mods = []string{"Verif.Properties.C01", "Verif.Properties.C01Move", "Verif.Properties.C01Skeleton", "Verif.Properties.C01RetargetExample", "Verif.Properties.C01Phases", "Verif.Properties.C01PhasesExample", "Verif.Properties.C01Import", "Verif.Properties.C01Name"}
 		case "C02":
 			mods = []string{"Verif.Properties.C02"}
 		case "C03":
